@@ -15,7 +15,13 @@ RULE = ("seeded generator of operation sequences against a real geckoPacketConn 
         "and with tied deadlines (the evicted key is recorded and given to the model as the oracle); (ownold) the table reaches the "
         "4096 cap while the oldest entries belong to the 1-3 sources that open the next messages (their own oldest entry is the one "
         "evicted), interleaved with cross-source evictions, completions and duplicates, then full expiry and 8+1 fresh opens per "
-        "source (admitted iff the source really holds < 8 entries; counters = census at every eviction step); decodeFrame on random/structured "
+        "source (admitted iff the source really holds < 8 entries; counters = census at every eviction step); (replay / lockout / "
+        "replayreal) 1-3 sources open 1-8 incomplete messages (8 each: lockout) at some phase of the gc period, then for 2-5 rounds "
+        "with gaps shorter than the TTL frames arrive again under the pending keys (exact duplicates, same index with other bytes, "
+        "a further chunk, another chunk count), direct gcExpired(now) calls in between, then the first gc tick / sweep later than "
+        "last-created + TTL and new opens per source (1-8, then a 9th): the harness keeps its own first-seen time per entry (entry "
+        "pointer, bubble clock) and requires every entry to be gone after the first sweep later than first-seen + TTL and a source to "
+        "be refused only while it has 8 messages that are not yet due; decodeFrame on random/structured "
         "bytes; option validation. Non-trivial = a reassembled packet was emitted, or a cap/eviction/expiry was reached, or a decode/"
         "config verdict. Distinct = distinct JSON case.")
 ASSUMPTIONS = [
@@ -388,6 +394,103 @@ def gen_ownold(rng, per, ties, fills=1, maxgap=20):
             "must": [], "distinct": False}
 
 
+def gen_replay(rng, lockout=False, real=False):
+    """incomplete messages whose frames are REPLAYED across time: 1-3 sources open 1-8 messages each (8 each in the
+    lock-out variant) at some phase of the gc period; then 2-5 rounds, each after a gap shorter than the TTL
+    (5 s, TTL-1 ns, one gc period, ...), in which frames arrive again under the pending keys: exact duplicates of a
+    chunk already held (dropped), the same index with other bytes, a further chunk that does not complete the
+    message, a frame with another chunk count (dropped), with direct gcExpired(now) calls in between; then a sleep
+    across the first gc tick later than last-created + TTL, and every source opens new messages (1-8, then a 9th).
+    An entry first seen at t has to be gone after the first sweep later than t + TTL however often its key was
+    replayed (a replay after that sweep legitimately opens a NEW entry), and the sources must not be locked out.
+    real=True: the messages are written through the real sender, only frame 0 is delivered and replayed, and after
+    the expiry all frames arrive promptly: the message must then be delivered."""
+    ops = []
+    now = [0]
+
+    def emit(o):
+        now[0] += o.get("d", 0)
+        ops.append(o)
+
+    nsrc = rng.randint(1, 3)
+    emit({"o": "t", "d": rng.choice([1, 10**9, PERIOD - 1, PERIOD, PERIOD + 1, rng.randrange(1, TTL)])})
+    senders, msgs, must = [], [], []
+    pend = []
+    last_created = 0
+    if real:
+        senders = [{"ctr0": rng.choice([0, 5, 254, rng.randrange(2**32)])} for _ in range(nsrc)]
+        for s in range(nsrc):
+            for _ in range(rng.randint(1, 3)):
+                msgs.append(mk_msg(rng, s, rng.randint(2, 60)))
+                emit({"o": "f", "d": rng.choice([0, 1, 1000, 10**8]), "s": s, "m": len(msgs) - 1, "i": 0})
+                pend.append([s, len(msgs) - 1])
+        last_created = now[0]
+    else:
+        for s in range(nsrc):
+            mids = rng.sample(range(256), 20)
+            for _ in range(8 if lockout else rng.randint(1, 8)):
+                mid, tot = mids.pop(), rng.choice([2, 3, 3, 5, 8])
+                idx = rng.randrange(tot)
+                emit({"o": "p", "d": rng.choice([0, 1, 1000, 10**8]), "s": s,
+                      "h": raw_frame(mid, idx, tot, rng.choice([0, 0, 3]), bytes([mid, idx])).hex()})
+                pend.append([s, mid, tot, {idx}])
+        last_created = now[0]
+    for _ in range(rng.randint(2, 5)):
+        gap = rng.choice([5 * 10**9, 5 * 10**9, TTL - 1, TTL - 10**9, PERIOD, PERIOD + 1, 3 * 10**9, rng.randrange(10**9, TTL)])
+        some = pend if (lockout or rng.random() < 0.5) else rng.sample(pend, rng.randint(1, len(pend)))
+        first = True
+        for m in some:
+            d = gap if first else rng.choice([0, 1, 1000])
+            first = False
+            if real:
+                emit({"o": "f", "d": d, "s": m[0], "m": m[1], "i": 0})
+                continue
+            s, mid, tot, have = m
+            r = rng.random()
+            if r < 0.45:
+                i = rng.choice(sorted(have))
+                b = raw_frame(mid, i, tot, 0, bytes([mid, i]))                    # exact duplicate
+            elif r < 0.6:
+                i = rng.choice(sorted(have))
+                b = raw_frame(mid, i, tot, rng.choice([0, 2]), b"other")          # same index, other bytes
+            elif r < 0.85 and len(have) < tot - 1:
+                i = rng.choice([x for x in range(tot) if x not in have])
+                have.add(i)
+                b = raw_frame(mid, i, tot, 0, bytes([mid, i]))                    # progress, still incomplete
+            elif r < 0.95:
+                b = raw_frame(mid, 0, tot % 8 + 2, 0, b"tot")                     # another chunk count (never == tot)
+            else:
+                i = rng.choice(sorted(have))
+                b = raw_frame(mid, i, tot, 0, b"")                                # duplicate with an empty chunk
+            emit({"o": "p", "d": d, "s": s, "h": b.hex()})
+        if rng.random() < 0.3:
+            emit({"o": "g", "d": rng.choice([0, 1]), "t": now[0] + rng.choice([0, 0, 1])})
+    # across the first tick later than last_created + TTL (by then every first-generation entry is due)
+    target = ((last_created + TTL) // PERIOD + 1) * PERIOD
+    how = rng.random()
+    if how < 0.7 or real:
+        emit({"o": "t", "d": max(1, target - now[0]) + rng.choice([0, 1, 10**6, 10**9])})
+    else:
+        emit({"o": "t", "d": 1})
+        emit({"o": "g", "d": 1, "t": max(now[0], last_created + TTL + 1)})
+    if real:
+        for m in pend:
+            idx = list(range(8))
+            rng.shuffle(idx)
+            for i in idx:
+                emit({"o": "f", "d": rng.choice([0, 1]), "s": m[0], "m": m[1], "i": i})
+            must.append([m[1], m[0]])
+    else:
+        for s in range(nsrc):
+            mids = [m for m in range(256) if not any(p[0] == s and p[1] == m for p in pend)]
+            rng.shuffle(mids)
+            for _ in range(rng.choice([1, 8, 9, 9])):
+                mid = mids.pop()
+                emit({"o": "p", "d": rng.choice([0, 1]), "s": s, "h": raw_frame(mid, 0, rng.choice([2, 3, 8]), 0, bytes([mid])).hex()})
+    return {"k": "seq", "fam": "lockout" if lockout else ("replayreal" if real else "replay"), "omin": 20, "omax": 60, "rbuf": 2048,
+            "senders": senders, "msgs": msgs, "ops": ops, "must": must, "distinct": bool(real)}
+
+
 def gen_dec(rng):
     n = rng.choice([0, 1, 4, 5, 5, 6, 7, 8, 12, 20])
     b = bytearray(rng.randrange(256) for _ in range(n))
@@ -424,6 +527,18 @@ def gen(rng, tier):
         cases.append(gen_wild(rng))
     for _ in range(20 * scale):
         cases.append(gen_percap(rng))
+    # the classic replay: first seen at t, duplicate at t + 5 s, sweep (direct call / gc tick) at t + 9 s
+    cases.append({"k": "seq", "fam": "replay", "omin": 20, "omax": 60, "rbuf": 2048, "senders": [], "msgs": [], "must": [], "distinct": False,
+                  "ops": [{"o": "p", "d": 10**9, "s": 0, "h": raw_frame(7, 0, 3, 0, b"a").hex()},
+                          {"o": "p", "d": 5 * 10**9, "s": 0, "h": raw_frame(7, 0, 3, 0, b"a").hex()},
+                          {"o": "g", "d": 1, "t": 10 * 10**9}, {"o": "t", "d": 6 * 10**9},
+                          {"o": "p", "d": 1, "s": 0, "h": raw_frame(8, 0, 2, 0, b"b").hex()}]})
+    for _ in range(14 * scale):
+        cases.append(gen_replay(rng))
+    for _ in range(8 * scale):
+        cases.append(gen_replay(rng, lockout=True))
+    for _ in range(6 * scale):
+        cases.append(gen_replay(rng, real=True))
     if tier == "quick":
         cases.append(gen_flood(rng, 600, 8, False, 300))
         cases.append(gen_flood(rng, 700, 7, True, 300))
